@@ -25,13 +25,16 @@ def shard_of(case):
     return "shard%02d" % (case.cid % NSHARDS)
 
 
-def write_workspace(root, cases, feature):
+def write_workspace(root, cases, feature, shard_fn=None, order_rng=None):
     if os.path.exists(root):
         shutil.rmtree(root)
     os.makedirs(root)
     shards = {}
     for c in cases:
-        shards.setdefault(shard_of(c), []).append(c)
+        shards.setdefault((shard_fn or shard_of)(c), []).append(c)
+    if order_rng is not None:
+        for cs in shards.values():
+            order_rng.shuffle(cs)
     index = {}
     for name, cs in shards.items():
         d = os.path.join(root, name)
@@ -122,7 +125,49 @@ def corpus_key(seed, tier):
                                                             os.path.join(VERIF, "harness", "corpus.py")]), str(seed), tier)[:20]
 
 
-def load_or_run(seed, tier):
+def attribute(rows, index, cases):
+    per_site = {}
+    attributed = []
+    unattributed = 0
+    for r in rows:
+        m = SITE_RE.search(r.get("site", ""))
+        if not m or (m.group(1), int(m.group(2))) not in index:
+            unattributed += 1
+            continue
+        k = (m.group(1), int(m.group(2)))
+        r["cid"] = index[k]
+        r["nth"] = per_site.get(k, 0)
+        per_site[k] = r["nth"] + 1
+        attributed.append(r)
+    seen = set(r["cid"] for r in attributed)
+    missing = [c.cid for c in cases if c.cid not in seen]
+    return attributed, unattributed, missing
+
+
+def run_cases(cases, name, root=None, shard_fn=None, order_rng=None, features=(False, True)):
+    """cases through the real macro in both feature settings; returns the result dict"""
+    root = root or os.path.join(CACHE, "corpus", name)
+    os.makedirs(root, exist_ok=True)
+    result = {"key": name, "cases": [c.descr() for c in cases], "rows": {}, "stats": {}}
+    for feature in features:
+        fname = "on" if feature else "off"
+        ws = os.path.join(root, fname)
+        index = write_workspace(ws, cases, feature, shard_fn, order_rng)
+        dumps, out, panics = run_workspace(ws, feature, name)
+        rows = model_rows(dumps, ws)
+        attributed, unattributed, missing = attribute(rows, index, cases)
+        result["rows"][fname] = attributed
+        result["stats"][fname] = {"records": len(rows), "unattributed": unattributed, "missing_cases": len(missing),
+                                  "missing_sample": missing[:20], "rustc_panics_reported": panics}
+        log("[corpus] feature=%s: %d records, %d unattributed, %d cases without record" % (fname, len(rows), unattributed, len(missing)))
+        # the workspace sources are kept for replay; dumps and sexp are dropped to save space
+        for f in dumps:
+            os.remove(f)
+        os.remove(os.path.join(ws, "cases.sexp"))
+    return result
+
+
+def load_or_run(seed, tier, keep_others=False):
     """returns dict: cases (descr list), rows per feature: list of rows with cid/nth attached, stats"""
     from common import ensure_tools
     ensure_tools()
@@ -134,42 +179,46 @@ def load_or_run(seed, tier):
             return json.load(fh)
     # keep the cache small: drop other corpora
     base = os.path.join(CACHE, "corpus")
-    if os.path.isdir(base):
+    if os.path.isdir(base) and not keep_others:
         for d in os.listdir(base):
             if d != key:
                 shutil.rmtree(os.path.join(base, d), ignore_errors=True)
-    os.makedirs(root, exist_ok=True)
     cases = gen.build_corpus(seed, tier)
-    result = {"key": key, "seed": seed, "tier": tier, "cases": [c.descr() for c in cases], "rows": {}, "stats": {}}
-    for feature in (False, True):
-        fname = "on" if feature else "off"
-        ws = os.path.join(root, fname)
-        index = write_workspace(ws, cases, feature)
-        dumps, out, panics = run_workspace(ws, feature, key)
-        rows = model_rows(dumps, ws)
-        per_site = {}
-        attributed = []
-        unattributed = 0
-        for r in rows:
-            m = SITE_RE.search(r.get("site", ""))
-            if not m or (m.group(1), int(m.group(2))) not in index:
-                unattributed += 1
-                continue
-            k = (m.group(1), int(m.group(2)))
-            r["cid"] = index[k]
-            r["nth"] = per_site.get(k, 0)
-            per_site[k] = r["nth"] + 1
-            attributed.append(r)
-        seen = set(r["cid"] for r in attributed)
-        missing = [c.cid for c in cases if c.cid not in seen]
-        result["rows"][fname] = attributed
-        result["stats"][fname] = {"records": len(rows), "unattributed": unattributed, "missing_cases": len(missing),
-                                  "missing_sample": missing[:20], "rustc_panics_reported": panics}
-        log("[corpus] feature=%s: %d records, %d unattributed, %d cases without record" % (fname, len(rows), unattributed, len(missing)))
-        # the workspace sources are kept for replay; dumps and sexp are dropped to save space
-        for f in dumps:
-            os.remove(f)
-        os.remove(os.path.join(ws, "cases.sexp"))
+    result = run_cases(cases, key, root)
+    result.update({"seed": seed, "tier": tier})
     with open(done, "w") as fh:
         json.dump(result, fh)
     return result
+
+
+def rerun_shuffled(res, seed, runs=1):
+    """the same cases again: other compiler processes, other sharding, shuffled order (for C20).
+    Only the feature-off workspace unless runs > 1. Cached next to the corpus."""
+    import random
+    root = os.path.join(CACHE, "corpus", res["key"])
+    done = os.path.join(root, "rerun%d.json" % runs)
+    if os.path.exists(done):
+        with open(done) as fh:
+            return json.load(fh)
+    cases = []
+    for d in res["cases"]:
+        c = gen.Case(d["family"], d["attr"], d["item"], macro=d["macro"], tags=d["tags"], pair=d["pair"])
+        c.cid = d["cid"]
+        cases.append(c)
+    out = {}
+    for k in range(runs):
+        rng = random.Random(seed * 31 + k)
+        salt = rng.randrange(1, 1000)
+
+        def shard_fn(c, salt=salt):
+            if c.family in RISKY:
+                return RISKY[c.family]
+            return "shard%02d" % ((c.cid * 7 + salt) % (NSHARDS - 1 - k % 3))
+        feats = (False,) if k == 0 else (True,) if k == 1 else (False, True)
+        r = run_cases(cases, res["key"] + "-rerun", os.path.join(root, "rerun-ws"), shard_fn, rng, feats)
+        for f, rows in r["rows"].items():
+            out.setdefault(f, []).extend(rows)
+    shutil.rmtree(os.path.join(root, "rerun-ws"), ignore_errors=True)
+    with open(done, "w") as fh:
+        json.dump(out, fh)
+    return out
